@@ -77,6 +77,8 @@ def run_case(case: dict) -> dict:
     def log(e, raised=False):
         e["raised"] = raised
         e["live"] = live()
+        e["overlap"] = getattr(bus, "overlaps", 0)      # tasks started while the same producer's task was running
+        bus.overlaps = 0
         ev.append(e)
 
     for op in case["ops"]:
